@@ -281,7 +281,12 @@ func typedNil(c *core.Ctx) {
 		c.Unresolved("ssa", "SSA package for connect not built")
 		return
 	}
-	errPtr := types.NewPointer(p.Named(core.ConnectPath, "Error"))
+	errTN, _ := sp.Pkg.Scope().Lookup("Error").(*types.TypeName)
+	if errTN == nil {
+		c.Unresolved("ssa", "type Error not found")
+		return
+	}
+	errPtr := types.NewPointer(errTN.Type())
 	var fns []*ssa.Function
 	seen := map[*ssa.Function]bool{}
 	var add func(f *ssa.Function)
